@@ -3,6 +3,7 @@ import RR.Proof.SyncSpecs
 import RR.Proof.HdlcTable
 import RR.Spec.Hdlc
 import RR.Proof.Chain
+import RR.Proof.ZcIdeal
 
 /-!
 # C20 — end to end: the documented receive chains decode every clean AX.25 frame
@@ -137,6 +138,57 @@ theorem c20_digital_9600 (P hs : List Nat) (hP : ∀ x ∈ P, x < 2) (hhs : ∀ 
   rw [hseed, hrun]
   exact ⟨_, deframe_after_noise ⟨Gen.rx9600HdlcMin, Gen.rx9600HdlcMax, true, false⟩ rfl noise hn ps hps⟩
 
+/-- **Clock recovery by `ZeroCrossing`, exact arithmetic.** `zcStep` — the definition the driver runs in
+`Float32`, bit for bit against the real block — instantiated with rationals (`+ - /2 10*` exact, `as u64` =
+floor): for EVERY samples-per-symbol `sps ≥ 4` (50000/9600 in the example), every symbol sequence `b` with
+any run lengths, on the ideal NRZ waveform (symbol `s` = the sample instants in `[s·sps, (s+1)·sps)`), the block
+emits exactly one sample per symbol, carrying that symbol's sign — through all of its zero-crossing resets
+and step-backs. (For `2 < sps < 4` this is false: the block can emit a symbol twice; what is not proved
+is the effect of `f32` rounding in `last_cross += clock`.) -/
+theorem c20_zero_crossing_ideal (sps : ℚ) (hs : 4 ≤ sps) (b : List Bool) (pos : Nat → Bool) (hi lo : Nat)
+    (hhi : pos hi = true) (hlo : pos lo = false) :
+    ∃ st rows, gatedRun (zcGated (ratZOps pos) sps 1) (idealWave sps b hi lo) (zcGated (ratZOps pos) sps 1).init [] =
+      some (st, rows) ∧ rows.map (rowSign pos) = b :=
+  zc_ideal sps hs b pos hi lo hhi hlo
+
+/-- The bound on `sps` is needed: at 2.5 samples per symbol the same step emits the second symbol of
+`[0, 1]` twice (kernel-evaluated on the exact-arithmetic instance). -/
+theorem c20_zero_crossing_small_sps_duplicates :
+    (gatedRun (zcGated (ratZOps (· == 1)) (5 / 2) 1) (idealWave (5 / 2) [false, true] 1 0)
+      (zcGated (ratZOps (· == 1)) (5 / 2) 1).init []).map (fun r => r.2.map (rowSign (· == 1))) =
+      some [false, true, true] := by decide +kernel
+
+/-- **The 9600-baud chain from the baseband on**: ideal NRZ waveform of the scrambled, NRZI-coded
+transmission → ZeroCrossing (exact arithmetic, any `sps ≥ 4`) → BinarySlicer (`x > 0`) → NrziDecode →
+Descrambler → HdlcDeframer as configured in the example delivers exactly the transmitted payloads, in
+order, each once. (`c08_gated` makes the ZeroCrossing part independent of the schedule.) -/
+theorem c20_9600_from_baseband (sps : ℚ) (hsps : 4 ≤ sps) (pos : Nat → Bool) (hi lo : Nat) (hhi : pos hi = true)
+    (hlo : pos lo = false) (P hs : List Nat) (hP : ∀ x ∈ P, x < 2) (hhs : ∀ x ∈ hs, x < 2) (hlen : 18 ≤ P.length)
+    (level prev : Nat) (hl : level < 2) (hp : prev < 2) (ps : List (List Nat × Nat))
+    (hps : ∀ q ∈ ps, (∀ b ∈ q.1, b < 256) ∧ Gen.rx9600HdlcMin ≤ q.1.length + 2 ∧ q.1.length + 2 ≤ Gen.rx9600HdlcMax) :
+    let levels := nrziEnc level (Lfsr.scrL hs (P ++ txFrames ps))
+    ∃ st rows, gatedRun (zcGated (ratZOps pos) sps 1) (idealWave sps (levels.map (· == 1)) hi lo)
+        (zcGated (ratZOps pos) sps 1).init [] = some (st, rows) ∧
+      ∃ garbage, (Hdlc.run ⟨Gen.rx9600HdlcMin, Gen.rx9600HdlcMax, true, false⟩ Hdlc.init
+        (Lfsr.lfsrRun Gen.rx9600DescramblerSeed
+          (nrziSpec prev (rows.map fun r => if rowSign pos r then 1 else 0)))).2 = garbage ++ ps.map (·.1) := by
+  intro levels
+  obtain ⟨st, rows, hrun, hrows⟩ := zc_ideal sps hsps (levels.map (· == 1)) pos hi lo hhi hlo
+  refine ⟨st, rows, hrun, ?_⟩
+  have hsl : (rows.map fun r => if rowSign pos r then 1 else 0) = levels := by
+    have : (rows.map fun r => if rowSign pos r then 1 else 0) =
+        (rows.map (rowSign pos)).map fun (x : Bool) => if x then 1 else 0 := by
+      rw [List.map_map]; rfl
+    rw [this, hrows, List.map_map]
+    conv => rhs; rw [← List.map_id levels]
+    apply List.map_congr_left
+    intro x hx
+    have := nrziEnc_lt2 level hl _ x hx
+    have : x = 0 ∨ x = 1 := by omega
+    rcases this with rfl | rfl <;> simp
+  rw [hsl]
+  exact c20_digital_9600 P hs hP hhs hlen level prev hl hp ps hps
+
 /-- The descrambler of the chain is the documented one: `out[n] = in[n] xor in[n-12] xor in[n-17]`. -/
 theorem c20_descrambler_taps (l hist : List Nat) (hl : ∀ x ∈ l, x < 2) (hh : ∀ x ∈ hist, x < 2) :
     Lfsr.lfsrRun (Lfsr.enc hist) l = Lfsr.descrL hist l ∧
@@ -158,5 +210,11 @@ example :
     let p := [0x82, 0xa0, 0xa4, 0xa6, 0x40, 0x40, 0x60, 0x03, 0xf0, 0x21, 0x3e]
     let bits := HdlcSpec.flag ++ HdlcSpec.frame p
     (Hdlc.run cfg Hdlc.init (nrziSpec 0 (nrziEnc 1 bits))).2 = [p] := by decide +kernel
+
+/-- Non-vacuity of `c20_zero_crossing_ideal` at the example's rate 50000/9600: five symbols in, five out. -/
+example :
+    (gatedRun (zcGated (ratZOps (· == 1)) (50000 / 9600) 1) (idealWave (50000 / 9600) [false, true, false, false, true] 1 0)
+      (zcGated (ratZOps (· == 1)) (50000 / 9600) 1).init []).map (fun r => r.2.map (rowSign (· == 1))) =
+      some [false, true, false, false, true] := by decide +kernel
 
 end RR.Props.C20
